@@ -214,8 +214,8 @@ loop:
 
 type feedFn func(context.Context, config.Log, feeder.Witness, *http.Client, time.Duration) error
 
-var c19Feeders = map[string]feedFn{"sumdb": sumdb.FeedLog, "pixel": pixelbt.FeedLog, "rekor": rekor.FeedLog, "serverless": serverless.FeedLog, "tiles": tiles.FeedLog}
-var c19FeederNames = []string{"sumdb", "tiles", "pixel", "rekor", "serverless", "distributor"}
+var c19Feeders = map[string]feedFn{"sumdb": sumdb.FeedLog, "pixel": pixelbt.FeedLog, "rekor": rekor.FeedLog, "rekor-inactive": rekor.FeedLog, "serverless": serverless.FeedLog, "tiles": tiles.FeedLog}
+var c19FeederNames = []string{"sumdb", "tiles", "pixel", "rekor", "rekor-inactive", "serverless", "distributor"}
 
 type c19Case struct {
 	Feeder string
@@ -244,7 +244,7 @@ func c19RunCycle(u *uni.U, gen *wh.CPGen, name string, head []byte, headSize int
 	la := wh.LogCfg{Origin: origin, Key: u.K1}
 	url := "http://log.test/"
 	flavour := name
-	if name == "rekor" {
+	if strings.HasPrefix(name, "rekor") {
 		url = "http://log.test/?treeID=1234567890"
 	}
 	if name == "sumdb" {
@@ -353,9 +353,10 @@ func c19FeedWorker(args []string) int {
 		var pts []int
 		f := func() (int, error) {
 			return c19RunCycle(u, gen, name, nil, 6, 2, func(i int, path string) string {
-				k := c.Choose(len(stublog.Menu), fmt.Sprintf("req%d", i))
+				menu := stublog.MenuFor(name)
+				k := c.Choose(len(menu), fmt.Sprintf("req%d", i))
 				pts = append(pts, k)
-				return stublog.Menu[k]
+				return menu[k]
 			})
 		}
 		// The id must be known before the run: it is the prefix being replayed
@@ -527,4 +528,75 @@ func c19(tier string) int {
 	run.Assumption("a retry loop that keeps retrying until its context ends is by design: cycles run with a context that ends at the first back-off wait")
 	run.Assumption("not all byte strings up to 16 KiB: the stated neighbourhoods and menus, completely (coverage-guided fuzzing would be a different technique family)")
 	return run.Finish()
+}
+
+func init() { Replayers["feeder-case"] = c19ReplayCase }
+
+// c19ReplayCase re-executes one recorded feeder cycle: "answers:[a,b,..]"
+// (indices into the feeder's answer menu, one per request, then the default
+// answer) or "hostile:<size index>:<hash length>:<witness has checkpoint>".
+// A cycle that neither returns nor panics within 60 s is reported as a hang.
+func c19ReplayCase(m map[string]any) int {
+	wh.InstallLogicalClock()
+	name, _ := m["feeder"].(string)
+	id, _ := m["case"].(string)
+	u := uni.New(ev.Seed(), 8, nil)
+	gen := wh.NewCPGen(u)
+	var f func() (int, error)
+	switch {
+	case strings.HasPrefix(id, "answers:"):
+		var idx []int
+		for _, t := range strings.Split(strings.Trim(strings.TrimPrefix(id, "answers:"), "[]"), ",") {
+			var k int
+			if _, err := fmt.Sscanf(strings.TrimSpace(t), "%d", &k); err == nil {
+				idx = append(idx, k)
+			}
+		}
+		menu := stublog.MenuFor(name)
+		f = func() (int, error) {
+			return c19RunCycle(u, gen, name, nil, 6, 2, func(i int, path string) string {
+				if i < len(idx) && idx[i] < len(menu) {
+					fmt.Printf("  request %d (%s): answer %q\n", i, path, menu[idx[i]])
+					return menu[idx[i]]
+				}
+				return ""
+			})
+		}
+	case strings.HasPrefix(id, "hostile:"):
+		var si, hl int
+		var has bool
+		fmt.Sscanf(strings.ReplaceAll(strings.TrimPrefix(id, "hostile:"), ":", " "), "%d %d %t", &si, &hl, &has)
+		head := u.Sign(uni.Body(c19Origin(name), c19Sizes[si], bytes.Repeat([]byte{0xab}, hl)), u.K1.Signer)
+		ws := 0
+		if has {
+			ws = 1
+		}
+		fmt.Printf("  log-signed checkpoint: size %d, %d-byte root; witness holds a checkpoint: %v\n", c19Sizes[si], hl, has)
+		f = func() (int, error) { return c19RunCycle(u, gen, name, head, 6, ws, nil) }
+	default:
+		f = func() (int, error) { return c19RunCycle(u, gen, name, nil, 6, 2, nil) }
+	}
+	type res struct {
+		reqs int
+		err  error
+		pan  any
+	}
+	ch := make(chan res, 1)
+	go func() {
+		var r res
+		defer func() { r.pan = recover(); ch <- r }()
+		r.reqs, r.err = f()
+	}()
+	select {
+	case r := <-ch:
+		if r.pan != nil {
+			fmt.Printf("REPRODUCED property=C19\n  %s cycle, case %s: panic: %v\n", name, id, r.pan)
+			return 1
+		}
+		fmt.Printf("%s cycle, case %s: ended after %d requests with err=%v\nnot reproduced: the cycle ends with a result or an error\n", name, id, r.reqs, r.err)
+		return 0
+	case <-time.After(60 * time.Second):
+		fmt.Printf("REPRODUCED property=C19\n  %s cycle, case %s: no result after 60 s (hang)\n", name, id)
+		return 1
+	}
 }
